@@ -54,6 +54,7 @@ def scenarios(tier):
     out.append(dict(name='keepalive-busy', kind='enum', runner='run_keepalive_busy', params=dict(), weight=10))
     out.append(dict(name='adaptive-second-init', kind='enum', runner='run_adaptive_second_init', params=dict(), weight=30))
     out.append(dict(name='reported-limits', kind='enum', runner='run_reported_limits', params=dict(), weight=10))
+    out.append(dict(name='file-timers', kind='enum', runner='run_file_timers', params=dict(), weight=10))
     out.append(dict(name='slow-negotiation', kind='enum', runner='run_slow_negotiation', params=dict(), weight=10))
     return out
 
@@ -292,6 +293,75 @@ def run_slow_negotiation(params, known):
                         v['case'] = case
                         violations.append(v)
     return dict(name=params.get('name', 'slow-negotiation'), evaluations=count, violations=violations, known=[], samples=[])
+
+
+def run_file_timers(params, known):
+    '''Keepalive and idle time as the daemon gets them - from the configuration file over the
+    defaults: keepalive_time absent / 0 / 5 / 30, idle_time absent / 0 / 7 / null (null = twice the
+    keepalive time, as the loader documents), against a peer announcing keepalive 0 or 3 that then
+    stays silent for 100 s.  The loaded values are what the file says; an endpoint without idle time
+    never starts an idle termination; with an idle time and no keepalive traffic it starts it then.'''
+    import json
+    violations = []
+    kinds = set()
+    count = 0
+    ABSENT = object()
+
+    def viol(kind, detail, case):
+        if kind in kinds:
+            return
+        kinds.add(kind)
+        v = Violation(PROP, 'timers', kind, dict(), '%r: %s' % (case, detail)).as_dict()
+        v['case'] = case
+        violations.append(v)
+    for role in ('passive', 'active'):
+        for own_ka in (ABSENT, 0, 5, 30):
+            for own_idle in (ABSENT, 0, 7, None):
+                for peer_ka in (0, 3):
+                    count += 1
+                    content = {}
+                    if own_ka is not ABSENT:
+                        content['keepalive_time'] = own_ka
+                    if own_idle is not ABSENT:
+                        content['idle_time'] = own_idle
+                    text = json.dumps({'tcpcl': content})
+                    case = dict(role=role, file=text, peer_keepalive=peer_ka)
+                    w = PeerWorld(dict(role=role, keepalive=0, idle=0, seg_mru=64, tx_init=64, config_text=text))
+                    eff_ka = 0 if own_ka is ABSENT else own_ka
+                    eff_idle = 0 if own_idle is ABSENT else (2 * eff_ka if own_idle is None else own_idle)
+                    if (w.cfg.keepalive_time, w.cfg.idle_time) != (eff_ka, eff_idle):
+                        viol('setting-differs-from-file', 'loaded keepalive_time %r idle_time %r, the file gives %r and %r'
+                             % (w.cfg.keepalive_time, w.cfg.idle_time, eff_ka, eff_idle), case)
+                        continue
+                    w.peer_write(T.enc_contact(0) + T.enc_sess_init(peer_ka, 64, 1000, b'dtn://p/'))
+                    w.quiesce()
+                    t0 = w.clock.now_us
+                    end = t0 + 100 * 10 ** 6
+                    term_at = None
+                    guard = 0
+                    while guard < 2000:
+                        guard += 1
+                        dl = w.next_deadline()
+                        if dl is None or dl > end or w.r_closed():
+                            break
+                        w.clock.now_us = max(w.clock.now_us, dl)
+                        w.quiesce()
+                        if term_at is None and 'ending' in [sg[1] for sg in w.signals if sg[0] == 'session_state_changed']:
+                            term_at = w.clock.now_us - t0
+                    (msgs, _rest) = T.parse_all(w.out_octets, with_contact=True)
+                    terms = [m for m in msgs if m['kind'] == 'SESS_TERM']
+                    neg_ka = min(eff_ka, peer_ka) if eff_ka and peer_ka else 0
+                    if w.escaped:
+                        viol('escaped-exception', '%s: %s' % (w.escaped[-1][0], w.escaped[-1][2]), case)
+                    elif eff_idle == 0:
+                        if terms or w.r_closed():
+                            viol('idle-termination-without-idle-time', 'no idle time is configured; after %.1f s of silence the endpoint wrote %r'
+                                 % ((term_at or 0) / 1e6, [(m['kind'], m.get('reason')) for m in terms]), case)
+                    elif neg_ka == 0:
+                        if not terms or terms[0].get('reason') != 1 or term_at is None or abs(term_at - eff_idle * 10 ** 6) > 50000:
+                            viol('idle-termination-not-at-the-configured-time', 'idle time %d s, no keepalive: SESS_TERM %r decided after %r us'
+                                 % (eff_idle, [(m['kind'], m.get('reason')) for m in terms], term_at), case)
+    return dict(name='file-timers', evaluations=count, violations=violations, known=[], samples=[])
 
 
 def run_reported_limits(params, known):
